@@ -375,12 +375,16 @@ def replay(obj):
 
 
 LEVEL_TEXT = ("Lean 4 theorems over R about an executable model of BaselineMetrics/ReportingMetrics (finite-pair filter, n, sse, mse, rmse, "
-              "ddof, rmse_adj, mae, mbe, means, savings) with _safe_divide re-translated from /repo on every run: rmse^2*n = sse, "
+              "ddof, rmse_adj, mae, mbe, means, savings) with _safe_divide AND the 19 derived statistics of BaselineMetrics (ddof, mse, rmse, the adjusted and "
+              "autocorrelation-adjusted RMSEs, CVRMSE/PNRMSE/NMAE/NMBE families, adjusted R^2) re-translated from /repo on every run "
+              "(EEM.Gen.MetricFormulas) and proved equal to the model's definitions on the model's base quantities: rmse^2*n = sse, "
               "rmse_adj^2*ddof = sse, n*mbe = sum(obs) - sum(pred), |mbe| <= mae <= rmse (Cauchy-Schwarz), ddof >= 1, the statistics ignore "
               "non-finite rows, the exact condition under which a ratio is undefined, and the two poor-fit gates as decision theorems. "
               "The model is tied to the real classes by a differential run on Float; the stored hourly metrics are compared with the "
               "metrics of predict(baseline) on non-interpolated hours on real fits (both fit paths).")
-LEVEL_NOTE = ("Trusted: Lean kernel + standard axioms; py2lean (for _safe_divide); hand model of the pandas reductions (validated by T2 at "
+LEVEL_NOTE = ("Trusted: Lean kernel + standard axioms; py2lean (for _safe_divide and the metric-formula extractor; `x ** 0.5` is read as sqrt); the base "
+              "quantities pandas computes (n, column mean/IQR/sum of squares, MAE, R^2, n') enter the generated formulas as fields of a record and are tied "
+              "to the class by T2; hand model of the pandas reductions (validated by T2 at "
               "1e-7 relative; quantile/IQR, Pearson correlation and autocorrelation are in the executable model but their inequalities "
               "(0 <= r^2 <= 1) are not proved); the hourly fit needs the vendored BisectingKMeans worked around in the harness; the ratio "
               "clause of the property is false of the code for small numerators (known finding C16-F1).")
